@@ -359,6 +359,8 @@ def _do_agents(rec: dict, unit: dict):
         _count(rec, f"agents:sweep:{unit['agent']}:cases", r["cases"])
         _count(rec, f"agents:sweep:{unit['agent']}:steps", r["steps"])
         _count(rec, f"agents:sweep:{unit['agent']}:configurations", r["configs"])
+        if r.get("rejected"):
+            _count(rec, f"agents:sweep:{unit['agent']}:configurations REJECTED at construction with a ValueError (no environment exists; outside C01)", r["rejected"])
         rec["cases"] += [(f"sweep|{unit['agent']}|{k}", True) for k in r["hist"]]
         rec["extra"]["evals"] = r["cases"]
     else:
@@ -368,7 +370,7 @@ def _do_agents(rec: dict, unit: dict):
             _count(rec, f"agents:c19-family:{kind}:cases", r["cases"])
             _count(rec, f"agents:c19-family:{kind}:steps", r["steps"])
             if r.get("skipped"):
-                _count(rec, f"agents:c19-family:{kind}:generated cases outside C01's domain (network knowledge does not cover the targets), skipped", r["skipped"])
+                _count(rec, f"agents:c19-family:{kind}:configurations REJECTED at construction with a ValueError (no environment exists; outside C01)", r["skipped"])
             rec["extra"]["evals"] = rec["extra"].get("evals", 0) + r["cases"]
     rec["traces"] += rec["extra"].get("evals", 0)
     for x in raises:
@@ -577,8 +579,9 @@ def _phase2(ctx: Ctx, rng: Rng, probes: List[Tuple[dict, dict]]) -> List[dict]:
         else:
             # quick: the relevant actions (capped; different action types first), a few of the others, a few pairs
             n_rel = len(ex.get("relevant") or [])
-            cap = min(n_rel, 14 if n_rel <= 24 else 10) if big else 12
-            items = dist.plan(cfg, ex["buckets"], r, False, n_sample=2, n_pairs=2, cap=cap)
+            # (sized so that the quick tier stays below ~120 s with 4 workers on a moderately loaded machine: a TAP001 episode costs ~10 s)
+            cap = min(n_rel, 8 if n_rel <= 24 else 6) if big else 10
+            items = dist.plan(cfg, ex["buckets"], r, False, n_sample=1, n_pairs=2, cap=cap)
         chunk = CHUNK if ctx.thorough else 3
         for i in range(0, len(items), chunk):
             units.append({"kind": "disturb", **spec, "seed": unit["seed"], "items": items[i:i + chunk], "sample": i == 0,
